@@ -28,7 +28,7 @@ RULE = ('each run = generated tree + Manifest layout + 1-8 simultaneous storage 
         'least two offending paths or a structural error, outside don\'t-care zones; distinct = distinct '
         'seam event-log digest')
 PLAN = {'quick': {'n': 10000, 'budget_s': 90, 'block': 40},
-        'thorough': {'n': 120000, 'budget_s': 900, 'block': 200}}
+        'thorough': {'n': 800000, 'budget_s': 2400, 'block': 200}}
 ASSUMPTIONS = ['M-verify (sim/model.py) defines the offending set; files that the mtime shortcut may skip are optional members']
 
 
